@@ -81,6 +81,10 @@ func c18Names(rng *rand.Rand, colon bool) []string {
 	if colon {
 		fam = append(fam, s+":1.dat", s+":", "d:"+s+".dat")
 	}
+	if rng.Intn(3) == 0 {
+		// white space at the edges of a name (and the twin name without it)
+		fam = append(fam, " "+s+".dat", "\t"+s+".dat", "\u00a0"+s+".dat", s+".dat ", "  "+s, s+"\u2003")
+	}
 	rng.Shuffle(len(fam), func(i, j int) { fam[i], fam[j] = fam[j], fam[i] })
 	n := 3 + rng.Intn(len(fam)-3)
 	return fam[:n]
